@@ -16,48 +16,48 @@ ALLFLAGS = ["CHK_C01", "CHK_C02", "CHK_C03", "CHK_C04", "CHK_C05", "CHK_C06", "C
 P = {
     "C01": dict(flags=["CHK_C01", "C01_TABLE", "CHK_LANG", "CHK_LANGSET"], sections=["graph", "table", "parses"],
                 cat=dict(exclude=["arconf"]), profiles=["mix", "det", "nonlalr", "det", "conflict", "mix"],
-                n=dict(quick=160, thorough=1500), recovery="off",
+                n=dict(quick=160, thorough=6000), recovery="off",
                 inputs=dict(allstr_cap=160, allstr_maxlen=5, sentences=8, corrupt=6, maxlen=24, random=3),
                 env=dict(LANGL=4), budget_ms=100, corrupt="cell"),
     "C02": dict(flags=["CHK_C02", "CHK_C02PARSE", "REPLAY_PAGER"], sections=["pager", "graph", "table", "parses"],
                 cat=dict(exclude=["arconf"]), profiles=["nonlalr", "det", "nonlalr", "mix", "det"],
-                n=dict(quick=80, thorough=1000), recovery="off",
+                n=dict(quick=80, thorough=4000), recovery="off",
                 inputs=dict(allstr_cap=120, allstr_maxlen=5, sentences=6, corrupt=6, maxlen=20),
                 budget_ms=100, corrupt="pager"),
     "C03": dict(flags=["CHK_C03"], sections=["pager", "graph", "table"], want_pager=True,
                 cat=dict(tags=["conflict", "prec", "rr", "arconf"]), profiles=["expr", "conflict", "expr", "mix"],
-                n=dict(quick=120, thorough=1500), recovery="off", inputs=dict(), corrupt="cell"),
+                n=dict(quick=120, thorough=12000), recovery="off", inputs=dict(), corrupt="cell"),
     "C04": dict(flags=["CHK_C04", "CHK_LANG", "CHK_LANGSET"], sections=["graph", "table", "parses"],
                 cat=dict(exclude=["arconf"]), profiles=["det", "nonlalr", "det", "mix"],
-                n=dict(quick=80, thorough=1000), recovery="both",
+                n=dict(quick=80, thorough=4000), recovery="both",
                 inputs=dict(allstr_cap=200, allstr_maxlen=5, sentences=2, corrupt=14, maxlen=24, random=4),
                 env=dict(LANGL=4), budget_ms=150, corrupt="errlex"),
     "C05": dict(flags=["CHK_C05", "CHK_REPAIRS"], sections=["graph", "table", "parses"],
                 cat=dict(tags=["rec", "lr1"]), profiles=["rec", "det", "rec", "mix"],
-                n=dict(quick=40, thorough=400), recovery="on", costs=["one", "rand3", "rand255"],
+                n=dict(quick=40, thorough=1200), recovery="on", costs=["one", "rand3", "rand255"],
                 inputs=dict(sentences=2, corrupt=22, maxlen=12, max_errors=4, random=4),
                 env=dict(MAXC=4), budget_ms=1000, corrupt="recover_out"),
     "C06": dict(flags=["CHK_C06", "CHK_REPAIRS"], sections=["graph", "table", "parses"],
                 cat=dict(tags=["rec", "lr1"]), profiles=["rec", "det", "rec", "mix"],
-                n=dict(quick=40, thorough=400), recovery="on", costs=["one", "rand3", "rand255"],
+                n=dict(quick=40, thorough=1200), recovery="on", costs=["one", "rand3", "rand255"],
                 inputs=dict(sentences=2, corrupt=22, maxlen=12, max_errors=4, random=4),
                 env=dict(MAXC=4), budget_ms=1000, corrupt="repair"),
     "C07": dict(flags=["CHK_C07"], sections=["graph", "table", "parses"],
                 cat=dict(exclude=["arconf"]), profiles=["rec", "mix", "det", "rec"],
-                n=dict(quick=50, thorough=500), recovery="on", costs=["one", "rand3"],
+                n=dict(quick=50, thorough=3000), recovery="on", costs=["one", "rand3"],
                 inputs=dict(sentences=3, corrupt=20, maxlen=40, max_errors=8, random=4),
                 budget_ms=300, corrupt="result"),
     "C08": dict(flags=["CHK_C08", "CHK_SPANS"], sections=["graph", "table", "parses"],
                 cat=dict(exclude=["arconf"]), profiles=["mix", "det", "mix", "rec"],
-                n=dict(quick=70, thorough=800), recovery="both",
+                n=dict(quick=70, thorough=5000), recovery="both",
                 inputs=dict(allstr_cap=40, allstr_maxlen=4, sentences=14, corrupt=8, maxlen=24),
                 budget_ms=150, corrupt="span"),
     "C16": dict(flags=["CHK_C16"], sections=["graph", "table"],
                 cat=dict(exclude=["arconf"]), profiles=["expr", "conflict", "mix", "det", "wild", "nonlalr"],
-                n=dict(quick=150, thorough=2000), recovery="off", inputs=dict(), corrupt="view"),
+                n=dict(quick=150, thorough=20000), recovery="off", inputs=dict(), corrupt="view"),
     "C17": dict(flags=["CHK_C17"], sections=["analyses"],
                 cat=dict(), profiles=["wild", "mix", "wild", "det", "conflict"],
-                n=dict(quick=250, thorough=3000), recovery="off", costs=["one", "rand3", "rand255"], inputs=dict(),
+                n=dict(quick=250, thorough=9000), recovery="off", costs=["one", "rand3", "rand255"], inputs=dict(),
                 budget_ms=100, corrupt="follow"),
 }
 
